@@ -19,7 +19,7 @@ import (
 func init() {
 	Register("C27", Extractor{Import: "Hv.Props.C27", Type: "Hv.C27.Facts", Run: func(fs *Facts) {
 		const path = "sdk/go/hydraidego/hydrex/hydrex.go"
-		for _, n := range []string{"updatesExisting", "saveRemovesStale", "destroyCleansIndex", "namesVerbatim"} {
+		for _, n := range []string{"updatesExisting", "saveRemovesStale", "destroyCleansIndex", "namesVerbatim", "validatesKeys"} {
 			fs.Tri(n, Unknown, path)
 		}
 		f, err := Load(path)
@@ -35,6 +35,18 @@ func init() {
 				c27Const(f, "sanctuaryHydraideIndex") != "" && c27Const(f, "sanctuaryHydraideCoreData") != "" &&
 				c27Const(f, "sanctuaryHydraideIndex") != c27Const(f, "sanctuaryHydraideCoreData")
 			fs.Tri("namesVerbatim", TriOf(okNames), path+":"+itoa(f.Line(cd)))
+		}
+		// up-front key validation: the first statement of Save is `for key := range items { if key == "" || strings.Contains(key, "/") { …; return } }`
+		if sv := f.Func("hydrex", "Save"); sv != nil && sv.Body != nil && len(sv.Body.List) > 0 {
+			v := No
+			if rs, ok := sv.Body.List[0].(*ast.RangeStmt); ok && f.Str(rs.X) == "items" && len(rs.Body.List) == 1 {
+				if is, ok := rs.Body.List[0].(*ast.IfStmt); ok && f.Str(is.Cond) == `key == "" || strings.Contains(key, "/")` && len(is.Body.List) > 0 {
+					if _, isRet := is.Body.List[len(is.Body.List)-1].(*ast.ReturnStmt); isRet {
+						v = Yes
+					}
+				}
+			}
+			fs.Tri("validatesKeys", v, path+":"+itoa(f.Line(sv)))
 		}
 		save := f.Func("hydrex", "Save")
 		destroy := f.Func("hydrex", "Destroy")
